@@ -258,6 +258,14 @@ fn judge_mesh(case: &Case, l: &mut Local) {
                 l.check("mesh: a UV lookup with a transform is the lookup on the moved point", "", same, mk, || format!("{:?} vs {:?}", a, b));
             }
         }
+        // the trait spellings of moving a list of points, for an owned vector and for a slice
+        {
+            let owned: Vec<Point3> = mesh.vertices().to_vec();
+            let via_vec = (&owned).transform_by(&iso);
+            let via_slice = (&owned[..]).transform_by(&iso);
+            let ok = via_vec.len() == owned.len() && via_slice.len() == owned.len() && owned.iter().enumerate().all(|(i, a)| d3(&via_vec[i], &(iso * a)) <= tol && d3(&via_slice[i], &(iso * a)) <= tol);
+            l.check("points: a vector and a slice of points move like their elements", "", ok, mk, || format!("{:?} / {:?} vs {:?}", via_vec.first(), via_slice.first(), owned.first().map(|a| iso * a)));
+        }
         let bulk = engeom::common::points::transform_points(mesh.vertices(), &iso);
         let mean_a = engeom::common::points::mean_point(mesh.vertices());
         let mean_b = engeom::common::points::mean_point(&bulk);
